@@ -38,7 +38,8 @@ package node
 //@   ensures[validators-latest] ret0 == nil ==> c.validators != nil && ((forall r int :: __in(r, frame.PeerSets) ==> r <= frame.Round) ==> __eq(c.validators.Peers, frame.Peers)) && (forall r int :: __in(r, frame.PeerSets) && r > frame.Round ==> (exists m int :: __in(m, frame.PeerSets) && m >= r && (forall r2 int :: __in(r2, frame.PeerSets) ==> r2 <= m) && __eq(c.validators.Peers, frame.PeerSets[m])))
 //@   ensures[trusted-signer]    ret0 == nil ==> (exists v string :: (exists k string :: __in(k, old(block.Signatures)) && v == common.Enc(common.KeyBytesOf(k)) && hg.BlockSigOK(block, common.KeyBytesOf(k), old(block.Signatures[k]))) && (__in(v, old(c.peers.ByPubKey)) || __in(v, old(c.genesisPeers.ByPubKey)) || __in(v, old(c.validators.ByPubKey))))
 //@   loop 1 invariant[peers]    forall i int :: 0 <= i && i < __idx() ==> frame.Peers[i] != nil
-//@   loop 2 invariant[sets]     forall r int :: __vis(r) ==> (forall i int :: 0 <= i && i < len(frame.PeerSets[r]) ==> frame.PeerSets[r][i] != nil)
+//@   reveal PeerSliceOK
+//@   loop 2 invariant[sets]     forall r int :: __vis(r) ==> hg.PeerSliceOK(frame.PeerSets[r])
 //@   loop 3 invariant[set]      forall i int :: 0 <= i && i < __idx() ==> ps[i] != nil
 //@   loop 4 invariant[roots]    forall k string :: __vis(k) ==> hg.RootSound(frame.Roots[k])
 //@   loop 5 invariant[root]     forall i int :: 0 <= i && i < __idx() ==> hg.FESound(r.Events[i])
